@@ -21,8 +21,30 @@ CFG = {
         "remove, transaction rollback, remove_all, rekey, reopen, three failing opens, remove) and 12 failing open / provision / remove "
         "calls with URIs carrying a password (postgres, percent-encoded, unknown scheme, sqlite), searched for every secret in play "
         "(pass keys, raw keys, record category / name / value / tag names / tag values, key material, URI passwords). "
+        "c20:buf also has the operation ffi_free: the buffer leaves the way SecretBuffer::from_secret hands it out (shrink_to_fit, into_vec: "
+        "len = capacity) and is released with askar_buffer_free, the block registered by address: freed whole, every byte zero. "
+        "c20:ffi = secret material fetched through the C API with allocation tracking on (own extern \"C\" declarations): "
+        "askar_key_get_secret_bytes and askar_key_get_jwk_secret for all 16 algorithms, public bytes, signatures, AEAD ciphertext "
+        "(EncryptedBuffer of askar_key_aead_encrypt) and plaintext (askar_key_aead_decrypt) for the 8 AEAD / key-wrap algorithms x message "
+        "lengths 0,1,16,33,64,4097 (thorough: 15 lengths), askar_key_wrap_key / askar_key_unwrap_key + secret export of the unwrapped key, "
+        "ECDH (askar_key_from_key_exchange) on 4 curves with the derived key read back on both sides, crypto_box_seal / seal_open, a record "
+        "value through askar_entry_list_get_value (twice; incl. the empty value: data dangling, len 0) + askar_entry_list_free, the default "
+        "(NULL) buffer, and a caller-filled block of exactly n bytes; every buffer is compared with the expected bytes, then released with "
+        "askar_buffer_free with its block registered by address (must be freed, with the size = len, all bytes zero), key / list handles "
+        "released with their free functions; every block released during any tracked call is searched for the needles (key bytes, first / "
+        "last 16 message bytes, the shared secret once known); one deliberately failing call per subject (forged tag, damaged wrapped key, "
+        "index out of range, no public part, cannot sign) whose askar_get_current_error JSON is searched for the secrets. "
+        "c20:ffilog = the log campaign through the C API in a CHILD process (askar_harness exec on a c20:ffilog-child case) that first installs "
+        "askar_set_custom_logger at Trace with a collecting callback: the two store life cycles (raw / Argon2), key import / export / sign / "
+        "AEAD incl. failing imports carrying key material, and 7 credential-carrying URIs (reserved characters, bad percent-encoding) x "
+        "open / provision / remove; message, target, module_path and file of every record and the error JSON of every failing call are searched. "
+        "error TEXT: every Err returned in the fmt / log campaigns is rendered with {}, {:?}, {:#?} and so is every error on its source() "
+        "chain (16 error scenarios over the three crates' error types: with / without message, with / without cause; the chain length is "
+        "part of the compared output). observations (Obs:*, types outside the property's list — SecretBytes::as_hex, Debug of EntryTag / "
+        "Entry tags / TagFilter): what they print is compared with the model and counted (obs:*), never an oracle failure. "
         "non-trivial: a buffer case that grows a buffer holding data across a capacity boundary and frees at least two buffer blocks; "
-        "every fmt / key / log case (each builds a distinct subject or scenario).  distinct = hash of the case"
+        "every fmt / key / log / ffilog case (each builds a distinct subject or scenario); an ffi case that released at least one "
+        "exported buffer block or looked up at least one error JSON.  distinct = hash of the case"
     ),
     "assumptions": [
         "contract of alloc::vec::Vec<u8> (with_capacity allocates exactly n; no reallocation while len + extra <= cap; growth of an owned "
@@ -32,12 +54,19 @@ CFG = {
         "usize arithmetic of the buffer (len + extra, cap * 2) does not wrap (sizes below 2^63)",
         "the Debug templates of Model/SecretFmt.lean are transcribed by hand (both the derived and the redacting variant of the six repaired types; which one applies is read from the source into Generated/Flags.lean on every run); their tie to the "
         "code is the c20:fmt / c20:log run",
+        "src/ffi/secret.rs is modelled over the same heap (Model/SecretBuf.lean: FfiBuf, ffiFromSecret, ffiBufferFree): ManuallyDrop = the "
+        "block is owned by nobody until Vec::from_raw_parts(data, len, len) re-adopts it as a Vec that believes capacity = len; that this "
+        "belief is right is a theorem (ffi_buffer_free_wipes), the C caller is assumed to pass back the (len, data) pair it was given",
+        "the error-text model (errDisplay / errDebug / errJson over a list of links) transcribes the three identical Display bodies and "
+        "the derived Debug by hand; which messages exist and that they are label text is established by the run, not by the model; the "
+        "ErrCase.chain table (length of the source() chain per scenario) is hand-written and compared on every run",
         "compiler-introduced copies (moves, spills) of inline keys are outside the model: the allocator observes heap blocks only, and "
         "the store life cycle (moved-from copies of the store key inside freed boxed futures) is reported on the diagnostic channel",
     ],
     "trusted_base": [
         "the instrumented #[global_allocator] of the harness (harness/src/c20.rs: TrackingAlloc) and its block scanner; the log::Log "
-        "installed by the harness; the secret-encoding search (hex / decimal list / base58 / base64 / raw)",
+        "installed by the harness; the secret-encoding search (hex / decimal list / base58 / base64 / raw); the harness's own extern \"C\" "
+        "declarations of the C API (layout of SecretBuffer / EncryptedBuffer / handles) and its C log callback",
     ],
 }
 
@@ -54,4 +83,8 @@ def nontrivial(rec):
         return feat.get("shown:debug", 0) >= 1
     if kind == "c20:log":
         return feat.get("log-records", 0) >= 1
+    if kind == "c20:ffilog":
+        return feat.get("log-records", 0) >= 1 and feat.get("ffi-error-json", 0) >= 1
+    if kind == "c20:ffi":
+        return feat.get("free:ffi-buffer-block", 0) >= 1 or feat.get("ffi-error-json", 0) >= 1
     return False
